@@ -190,6 +190,38 @@ opt_int64_t CgroupContext__getPgScanCumulative(CgroupContext *self, CgroupContex
   __CPROVER_ensures(ghost_exc == 0) /*@C10,C15*/
   __CPROVER_ensures(HAS(__CPROVER_return_value) == (g_ms_ok && g_ms_has_pgscan) && (!HAS(__CPROVER_return_value) || __CPROVER_return_value.val == g_ms_pgscan)) /*@C15*/;
 void h_getPgScanCumulative(void) { CgroupContext *s; CgroupContext_Error *e; HAVOC_CC(); HAVOC(g_ms_ok); HAVOC(g_ms_has_pgscan); HAVOC(g_ms_pgscan); HAVOC(g_ms_n); CgroupContext__getPgScanCumulative(s, e); CANARY; }
+/* ---- io cost: dot product of each CONFIGURED device's io.stat line with the coefficients of its type, summed ---- */
+opt_vec_DeviceIOStat g_iostat; uint64_t g_io_visits; double g_cost_acc; DeviceIOStat g_io_slot;
+int __CPROVER_uninterpreted_dev_known(str_t); int __CPROVER_uninterpreted_dev_type(str_t);
+opt_vec_DeviceIOStat CgroupContext__io_stat(CgroupContext *s, CgroupContext_Error *e) { return g_iostat; }
+#define DOT(st, co) F_ADD_d(F_ADD_d(F_ADD_d(F_ADD_d(F_ADD_d(F_MUL_d((double)(st).rios, (co).read_iops), F_MUL_d((double)(st).rbytes, (co).readbw)), F_MUL_d((double)(st).wios, (co).write_iops)), \
+                     F_MUL_d((double)(st).wbytes, (co).writebw)), F_MUL_d((double)(st).dios, (co).trim_iops)), F_MUL_d((double)(st).dbytes, (co).trimbw))
+/* dereferencing the i-th io.stat line: the ledger adds what the documented formula says this line contributes */
+DeviceIOStat *vecit_DeviceIOStat__ref(vecit_DeviceIOStat it)
+{ __CPROVER_assert(it.i < it.n, "UB: dereference of an end() iterator"); __CPROVER_assert(it.i == g_io_visits, "each io.stat line is visited once, in order"); g_io_visits = g_io_visits + 1;
+  DeviceIOStat fresh; g_io_slot = fresh;
+  if (__CPROVER_uninterpreted_dev_known(g_io_slot.dev_id) != 0) {
+    int ty = __CPROVER_uninterpreted_dev_type(g_io_slot.dev_id); __CPROVER_assume(ty == DeviceType__SSD || ty == DeviceType__HDD);
+    if (ty == DeviceType__SSD) g_cost_acc = F_ADD_d(g_cost_acc, DOT(g_io_slot, g_params.ssd_coeffs)); else g_cost_acc = F_ADD_d(g_cost_acc, DOT(g_io_slot, g_params.hdd_coeffs)); }
+  return &g_io_slot; }
+str_t g_find_key;
+uint64_t umap_str_t_DeviceType__size(umap_str_t_DeviceType m) { return 2; }
+mapit_pair_str_t_DeviceType umap_str_t_DeviceType__find(umap_str_t_DeviceType m, str_t k)
+{ mapit_pair_str_t_DeviceType it; it.map = m; it.n = 2; it.valid = 1; it.pos = __CPROVER_uninterpreted_dev_known(k) != 0 ? 0 : 2; g_find_key = k; return it; }
+pair_str_t_DeviceType mapit_pair_str_t_DeviceType__elem(hnd_t m, uint64_t pos) { pair_str_t_DeviceType p; p.first = g_find_key; p.second = __CPROVER_uninterpreted_dev_type(g_find_key); return p; }
+#define LOOPC_CgroupContext__getIoCostCumulative_1 \
+  __CPROVER_assigns(__begin1, cost, g_io_visits, g_cost_acc, g_io_slot, g_find_key) \
+  __CPROVER_loop_invariant(__begin1.vid == __end1.vid && __begin1.n == __end1.n && __end1.i == __end1.n && __begin1.i <= __end1.n && __end1.n == g_iostat.val.n && g_io_visits == __begin1.i) \
+  __CPROVER_loop_invariant(__CPROVER_equal(cost, g_cost_acc) && ghost_exc == 0) \
+  __CPROVER_decreases(__end1.n - __begin1.i)
+opt_double CgroupContext__getIoCostCumulative(CgroupContext *self, CgroupContext_Error *err)
+  FN_REQ __CPROVER_requires(g_io_visits == 0 && __CPROVER_equal(g_cost_acc, 0.0) && g_iostat.val.n <= VEC_MAX && (g_iostat.has == 0 || g_iostat.has == 1))
+  __CPROVER_assigns(g_io_visits, g_cost_acc, g_io_slot, g_find_key; err != 0: *err)
+  __CPROVER_ensures(HAS(__CPROVER_return_value) == HAS(g_iostat))
+  /* every line visited once; the result is the ledger: sum over configured devices of dot(line, coefficients of the device's type) */
+  __CPROVER_ensures(!HAS(__CPROVER_return_value) || (g_io_visits == g_iostat.val.n && __CPROVER_equal(__CPROVER_return_value.val, g_cost_acc))) /*@C15*/
+  __CPROVER_ensures(ghost_exc == 0);
+void h_getIoCostCumulative(void) { CgroupContext *s; CgroupContext_Error *e; HAVOC_CC(); HAVOC(g_iostat); HAVOC(g_io_visits); HAVOC(g_cost_acc); CgroupContext__getIoCostCumulative(s, e); CANARY; }
 void h_refresh(void) { CgroupContext *s; HAVOC_CC(); CgroupContext__refresh(s); CANARY; }
 void h_current_usage(void) { CgroupContext *s; CgroupContext_Error *e; HAVOC_CC(); CgroupContext__current_usage(s, e); CANARY; }
 void h_getAverageUsage(void) { CgroupContext *s; CgroupContext_Error *e; HAVOC_CC(); CgroupContext__getAverageUsage(s, e); CANARY; }
